@@ -312,6 +312,13 @@ func (s *sim) validBytes(id int) []byte {
 		if s.rng.Intn(2) == 0 {
 			p.UpdateOption(dhcpv4.OptGeneric(dhcpv4.GenericOptionCode(200), make([]byte, 300+s.rng.Intn(300))))
 		}
+		if s.rng.Intn(3) == 0 {
+			// options that are complete without a value: rapid commit (RFC 4039), and an empty one of a code nobody knows
+			p.UpdateOption(dhcpv4.OptGeneric(dhcpv4.GenericOptionCode(80), []byte{}))
+			if s.rng.Intn(2) == 0 {
+				p.UpdateOption(dhcpv4.OptGeneric(dhcpv4.GenericOptionCode(210), []byte{}))
+			}
+		}
 		if s.rng.Intn(2) == 0 { // what relayed client traffic carries
 			p.UpdateOption(dhcpv4.OptRelayAgentInfo(dhcpv4.OptGeneric(dhcpv4.GenericOptionCode(1), []byte{'c', byte(id), byte(s.rng.Intn(256))}),
 				dhcpv4.OptGeneric(dhcpv4.GenericOptionCode(2), []byte{'r', byte(id >> 8)})))
@@ -463,6 +470,13 @@ func (s *sim) arrive(kind, sender string, port int) {
 				d.b = []byte{1, 0, 0, byte(id), 0, 3, 0, 11, 1, 2, 3, 4, 0, 0, 0, 1, 0, 0, 0} // IA_NA cut short
 			default:
 				d.b = []byte{byte(id)} // one octet
+				if id%12 >= 6 {
+					// a relay whose relayed message is fine and whose own options are not: one that overruns after the relay
+					// message option, one cut inside its header
+					inner := []byte{1, 0, byte(id >> 8), byte(id), 0, 8, 0, 2, 0, 0}
+					d.b = append(append(append([]byte{12, 0}, make([]byte, 32)...), 0, 9, 0, byte(len(inner))), inner...)
+					d.b = append(d.b, [][]byte{{0, 18, 0, 9, 'x'}, {0, 18, 0}}[id/12%2]...)
+				}
 			}
 		}
 	case "empty":
